@@ -544,3 +544,237 @@ Proof.
       exists i0, it0. rewrite nth_error_set_nth_neq; [exact Hn|]. intros ->. rewrite Ei in Hn. discriminate.
     + intros Ho. destruct (V_joined0 Ho) as [Hz Hall]. specialize (Hall _ _ _ Ei). discriminate.
 Qed.
+
+Lemma step_inv counts t s s' evs : Inv counts s -> step t s = Some (s', evs) -> Inv counts s'.
+Proof.
+  intros HI H. unfold step in H.
+  destruct (Nat.eqb t 0); [eapply step_owner_inv; eauto|].
+  destruct (Nat.leb t (nstart s)); [eapply step_starter_inv; eauto|].
+  destruct (Nat.leb t (nstart s + length (threads s))); [eapply step_thread_inv; eauto|].
+  destruct (Nat.eqb t (S (nstart s + length (threads s)))); [eapply step_spur_inv; eauto|discriminate].
+Qed.
+
+Theorem inv_reachable counts stops (sched : list nat) :
+  Inv counts (fst (run step sched (init counts stops, []))).
+Proof.
+  apply (run_invariant_state _ _ _ step (Inv counts)).
+  - intros s t s' ev. apply step_inv.
+  - apply inv_init.
+Qed.
+
+(* ------------------------------------------------------------------------------------------ *)
+(* traces                                                                                      *)
+
+Definition runs (tr : list ev) : list (item * bool) :=
+  flat_map (fun e => match e with ERun it b => [(it, b)] | _ => [] end) tr.
+
+Lemma step_ghost t s s' evs :
+  step t s = Some (s', evs) -> completed s' = completed s ++ runs evs /\ stopped s' = stopped s.
+Proof.
+  unfold step.
+  destruct (Nat.eqb t 0).
+  { unfold step_owner. destruct (owner s) as [| | | |[]| | |]; try discriminate;
+      try (destruct (all_starters_done s)); try (destruct (cmtx s)); try (destruct (retired s));
+      try (destruct (all_retired_finished s)); try discriminate;
+      intros H; injection H as <- <-; cbn; now rewrite ?app_nil_r. }
+  destruct (Nat.leb t (nstart s)).
+  { unfold step_starter. destruct (nth_error (starters s) (pred t)) as [[n [j|j|j]]|]; try discriminate;
+      try (destruct (Nat.ltb j n)); try discriminate; intros H; injection H as <- <-; cbn; now rewrite ?app_nil_r. }
+  destruct (Nat.leb t (nstart s + length (threads s))).
+  { unfold step_thread. destruct (nth_error (threads s) (t - S (nstart s))) as [[it []]|]; try discriminate;
+      try (destruct (mem it (oplocked s))); try (destruct (cmtx s)); try discriminate;
+      intros H; injection H as <- <-; cbn; now rewrite ?app_nil_r. }
+  destruct (Nat.eqb t (S (nstart s + length (threads s)))); [|discriminate].
+  unfold step_spur. destruct (owner s) as [| | | |[]| | |]; try discriminate.
+  intros H; injection H as <- <-; cbn; now rewrite ?app_nil_r.
+Qed.
+
+Theorem tinv_reachable counts stops (sched : list nat) :
+  let c := run step sched (init counts stops, []) in
+  runs (snd c) = completed (fst c) /\ stopped (fst c) = stops.
+Proof.
+  apply (run_invariant _ _ _ step (fun c => runs (snd c) = completed (fst c) /\ stopped (fst c) = stops)).
+  - intros c t s' ev (H1 & H2) H. apply step_ghost in H as (G1 & G2). cbn [fst snd].
+    unfold runs in *. rewrite flat_map_app, H1, G1, G2. auto.
+  - split; reflexivity.
+Qed.
+
+(* completed operations are operations of the program *)
+Definition CIn (counts : list nat) (s : st) : Prop :=
+  forall it, In it (map fst (completed s)) -> In it (all_items 0 counts).
+
+Lemma step_cin counts t s s' evs : Inv counts s -> CIn counts s -> step t s = Some (s', evs) -> CIn counts s'.
+Proof.
+  intros HI HC H. unfold CIn in *. pose proof H as Hg. apply step_ghost in Hg as [Hg _]. rewrite Hg.
+  intros it Hin. rewrite map_app, in_app_iff in Hin. destruct Hin as [Hin|Hin]; [auto|].
+  (* only a thread's TRun step emits ERun, for its own operation *)
+  unfold step in H.
+  destruct (Nat.eqb t 0).
+  { exfalso. unfold step_owner in H. destruct (owner s) as [| | | |[]| | |]; try discriminate;
+      try (destruct (all_starters_done s)); try (destruct (cmtx s)); try (destruct (retired s));
+      try (destruct (all_retired_finished s)); try discriminate;
+      injection H as <- <-; cbn in Hin; contradiction. }
+  destruct (Nat.leb t (nstart s)).
+  { exfalso. unfold step_starter in H. destruct (nth_error (starters s) (pred t)) as [[n [j|j|j]]|]; try discriminate;
+      try (destruct (Nat.ltb j n)); try discriminate; injection H as <- <-; cbn in Hin; contradiction. }
+  destruct (Nat.leb t (nstart s + length (threads s))).
+  { unfold step_thread in H. destruct (nth_error (threads s) (t - S (nstart s))) as [[it0 []]|] eqn:Ei; try discriminate;
+      try (destruct (mem it0 (oplocked s))); try (destruct (cmtx s)); try discriminate;
+      injection H as <- <-; cbn in Hin; try contradiction.
+    all: destruct Hin as [<-|[]]; rewrite <- (V_items _ _ HI); change it0 with (fst (it0, TRun));
+      apply in_map; eapply nth_error_In; eauto. }
+  exfalso. destruct (Nat.eqb t (S (nstart s + length (threads s)))); [|discriminate].
+  unfold step_spur in H. destruct (owner s) as [| | | |[]| | |]; try discriminate.
+  injection H as <- <-; cbn in Hin; contradiction.
+Qed.
+
+Theorem cin_reachable counts stops (sched : list nat) :
+  CIn counts (fst (run step sched (init counts stops, []))).
+Proof.
+  apply (run_invariant_state _ _ _ step (fun s => Inv counts s /\ CIn counts s)).
+  - intros s t s' ev [HI HC] H. split; [eapply step_inv; eauto|eapply step_cin; eauto].
+  - split; [apply inv_init|]. intros it [].
+Qed.
+
+Lemma step_retired t s s' evs :
+  step t s = Some (s', evs) ->
+  retired s' = retired s \/ exists i it, nth_error (threads s) i = Some (it, RLock) /\ retired s' = retired s ++ [it].
+Proof.
+  unfold step.
+  destruct (Nat.eqb t 0).
+  { unfold step_owner. destruct (owner s) as [| | | |[]| | |]; try discriminate;
+      try (destruct (all_starters_done s)); try (destruct (cmtx s)); try (destruct (retired s) eqn:Er);
+      try (destruct (all_retired_finished s)); try discriminate;
+      intros H; injection H as <- <-; cbn; auto. }
+  destruct (Nat.leb t (nstart s)).
+  { unfold step_starter. destruct (nth_error (starters s) (pred t)) as [[n [j|j|j]]|]; try discriminate;
+      try (destruct (Nat.ltb j n)); try discriminate; intros H; injection H as <- <-; cbn; auto. }
+  destruct (Nat.leb t (nstart s + length (threads s))).
+  { unfold step_thread. destruct (nth_error (threads s) (t - S (nstart s))) as [[it []]|] eqn:Ei; try discriminate;
+      try (destruct (mem it (oplocked s))); try (destruct (cmtx s)); try discriminate;
+      intros H; injection H as <- <-; cbn; eauto. }
+  destruct (Nat.eqb t (S (nstart s + length (threads s)))); [|discriminate].
+  unfold step_spur. destruct (owner s) as [| | | |[]| | |]; try discriminate.
+  intros H; injection H as <- <-; cbn; auto.
+Qed.
+
+Definition RIn (counts : list nat) (s : st) : Prop :=
+  forall it, In it (retired s) -> In it (all_items 0 counts).
+
+Theorem rin_reachable counts stops (sched : list nat) :
+  RIn counts (fst (run step sched (init counts stops, []))).
+Proof.
+  apply (run_invariant_state _ _ _ step (fun s => Inv counts s /\ RIn counts s)).
+  - intros s t s' ev [HI HR] H. split; [eapply step_inv; eauto|].
+    unfold RIn in *. destruct (step_retired _ _ _ _ H) as [->|(i & it & Hi & ->)]; [exact HR|].
+    intros it0 Hin. apply in_app_iff in Hin as [Hin|[<-|[]]]; [auto|].
+    rewrite <- (V_items _ _ HI). change it with (fst (it, RLock)). apply in_map. eapply nth_error_In; eauto.
+  - split; [apply inv_init|]. intros it [].
+Qed.
+
+(* ------------------------------------------------------------------------------------------ *)
+(* theorems                                                                                    *)
+
+Section Reach.
+  Variables (counts : list nat) (stops : list item) (sched : list nat).
+  Let c := run step sched (init counts stops, []).
+  Let s := fst c.
+  Let tr := snd c.
+  Let HI : Inv counts s := inv_reachable counts stops sched.
+
+  (* each operation completes at most once, with set_done exactly when its stop token was
+     requested, and only operations of the program complete *)
+  Theorem at_most_once :
+    NoDup (map fst (runs tr)) /\
+    (forall it b, In (it, b) (runs tr) -> b = mem it stops) /\
+    (forall it b, In (it, b) (runs tr) -> exists x n, fst it = S x /\ nth_error counts x = Some n /\ snd it < n).
+  Proof.
+    destruct (tinv_reachable counts stops sched) as [H1 H2]. fold c in H1, H2. fold tr s in H1. fold s in H2. rewrite H1.
+    split; [apply (V_cnodup _ _ HI)|]. split.
+    - intros it b Hin. rewrite <- H2. apply (V_cstop _ _ HI _ _ Hin).
+    - intros it b Hin.
+      assert (Hm : In it (map fst (completed s))) by (change it with (fst (it, b)); now apply in_map).
+      apply (cin_reachable counts stops sched) in Hm. destruct it as [p j].
+      apply in_all_items in Hm as (x & n & -> & Hn & Hj). exists x, n. auto.
+  Qed.
+
+  (* activeThreadCount_ = (1 while the context has not dropped its own count) + the number of
+     created threads that have not yet decremented it *)
+  Theorem count_accounting : count s = b2n (is_osub (owner s)) + nactive (threads s).
+  Proof. apply (V_count _ _ HI). Qed.
+
+  (* the destructor passes its wait only when the count is zero, and then every operation's
+     thread has left retire_thread's critical section (it only has to join its predecessor and
+     exit); the destructor's join of threadToJoin_ therefore waits for all of them *)
+  Theorem destructor_waits_for_all :
+    (owner s = OJoin \/ owner s = OUnlock \/ owner s = ODone) ->
+    count s = 0 /\ (forall i it pc, nth_error (threads s) i = Some (it, pc) -> pc = TAfter) /\
+    all_retired_finished s = true.
+  Proof.
+    intros Ho. destruct (V_joined _ _ HI Ho) as [Hz Hall]. split; [exact Hz|]. split; [exact Hall|].
+    unfold all_retired_finished. apply forallb_forall. intros it Hin. unfold thread_pc.
+    destruct (find (fun p => item_eqb it (fst p)) (threads s)) as [[it' pc]|] eqn:Ef.
+    - apply find_some in Ef as [Hin' _]. apply In_nth_error in Hin' as [i Hi]. now rewrite (Hall _ _ _ Hi).
+    - exfalso. apply (rin_reachable counts stops sched) in Hin. fold c s in Hin.
+      rewrite <- (V_items _ _ HI) in Hin. apply in_map_iff in Hin as ([it' pc] & E & Hin'). cbn in E. subst it'.
+      eapply find_none in Ef; [|exact Hin']. cbn in Ef. rewrite (proj2 (item_eqb_eq it it) eq_refl) in Ef. discriminate.
+  Qed.
+
+  (* when everything has finished every operation has completed exactly once and its thread has
+     retired exactly once *)
+  Theorem exactly_once_final :
+    final s = true ->
+    NoDup (map fst (runs tr)) /\ NoDup (retired s) /\
+    forall x n j, nth_error counts x = Some n -> j < n ->
+      In (S x, j) (map fst (runs tr)) /\ In (S x, j) (retired s).
+  Proof.
+    intros Hf. unfold final in Hf. destruct (owner s) eqn:Eo; try discriminate.
+    destruct (tinv_reachable counts stops sched) as [H1 _]. fold c in H1. fold tr s in H1. rewrite H1.
+    split; [apply (V_cnodup _ _ HI)|]. split; [apply (V_rnodup _ _ HI)|].
+    intros x n j Hn Hj. destruct (thread_of_item counts s x n j HI Hn Hj) as (i & tp & Hi).
+    destruct (V_joined _ _ HI (or_intror (or_intror Eo))) as [_ Hall]. rewrite (Hall _ _ _ Hi) in Hi.
+    split; [apply (V_completed _ _ HI _ _ _ Hi)|apply (V_retired _ _ HI _ _ _ Hi)]; reflexivity.
+  Qed.
+
+  (* no lost wake-up for the destructor *)
+  Theorem no_lost_wakeup :
+    owner s = OBlocked false ->
+    count s <> 0 \/ exists i it, nth_error (threads s) i = Some (it, RNotify) /\ cmtx s = Some (S (nstart s + i)).
+  Proof.
+    intros Ho. destruct (V_blocked _ _ HI Ho) as [H|(i & it & Hi)]; [auto|]. right. exists i, it.
+    split; [exact Hi|]. apply (V_thr _ _ HI _ _ _ Hi). reflexivity.
+  Qed.
+
+  Theorem mutex_owner :
+    (owner_holds (owner s) = true -> cmtx s = Some 0) /\
+    (forall i it pc, nth_error (threads s) i = Some (it, pc) -> holds_c pc = true -> cmtx s = Some (S (nstart s + i))).
+  Proof. split; [apply (V_own _ _ HI)|apply (V_thr _ _ HI)]. Qed.
+End Reach.
+
+(* a completion happens in a step of the operation's own thread (never of the starter) *)
+Theorem completion_on_own_thread counts stops (sched1 : list nat) t s' evs it b :
+  let s := fst (run step sched1 (init counts stops, [])) in
+  step t s = Some (s', evs) -> In (ERun it b) evs ->
+  exists i, t = S (nstart s + i) /\ nth_error (threads s) i = Some (it, TRun) /\ b = mem it stops.
+Proof.
+  intros s H Hin.
+  destruct (tinv_reachable counts stops sched1) as [_ Hst]. fold s in Hst.
+  unfold step in H.
+  destruct (Nat.eqb t 0).
+  { exfalso. unfold step_owner in H. destruct (owner s) as [| | | |[]| | |]; try discriminate;
+      try (destruct (all_starters_done s)); try (destruct (cmtx s)); try (destruct (retired s));
+      try (destruct (all_retired_finished s)); try discriminate;
+      injection H as <- <-; cbn in Hin; intuition discriminate. }
+  destruct (Nat.leb_spec t (nstart s)) as [|Hts].
+  { exfalso. unfold step_starter in H. destruct (nth_error (starters s) (pred t)) as [[n [j|j|j]]|]; try discriminate;
+      try (destruct (Nat.ltb j n)); try discriminate; injection H as <- <-; cbn in Hin; intuition discriminate. }
+  destruct (Nat.leb t (nstart s + length (threads s))).
+  { unfold step_thread in H. destruct (nth_error (threads s) (t - S (nstart s))) as [[it0 []]|] eqn:Ei; try discriminate;
+      try (destruct (mem it0 (oplocked s))); try (destruct (cmtx s)); try discriminate;
+      injection H as <- <-; cbn in Hin; try (exfalso; intuition discriminate).
+    all: destruct Hin as [E|[E|[]]]; [discriminate|]; injection E as <- <-;
+      exists (t - S (nstart s)); (split; [lia|]); (split; [exact Ei|]); now rewrite Hst. }
+  exfalso. destruct (Nat.eqb t (S (nstart s + length (threads s)))); [|discriminate].
+  unfold step_spur in H. destruct (owner s) as [| | | |[]| | |]; try discriminate.
+  injection H as <- <-; cbn in Hin; intuition discriminate.
+Qed.
